@@ -250,10 +250,12 @@ def methodProg (m : Method) (self : TM) (payload : Option Nat) : Prog MethodRes 
 /-! ### looking things up in the emitted code (rustc's name resolution, restricted to what
     the generated code and its callers use) -/
 
+def Item.stateImpl? (state : Name) : Item → Option (Option Ctor × List Method)
+  | .stateImpl _ _ s ctor ms => if s = state then some (ctor, ms) else none
+  | _ => none
+
 def Code.stateImpls (c : Code) (state : Name) : List (Option Ctor × List Method) :=
-  c.filterMap fun
-    | .stateImpl _ _ s ctor ms => if s = state then some (ctor, ms) else none
-    | _ => none
+  c.filterMap (Item.stateImpl? state)
 
 /-- inherent method `name` on `M<_, state>` (first match; uniqueness is `Static`'s business) -/
 def Code.findMethod (c : Code) (state name : Name) : Option Method :=
@@ -293,26 +295,33 @@ structure DynParts where
   intoDyn : List (Name × Name)           -- typed state ↦ variant
   deriving Repr, Inhabited
 
+def Item.anyStateEnum? : Item → Option (List (Name × Name) × List (Name × Name))
+  | .anyStateEnum _ _ _ vs arms => some (vs, arms)
+  | _ => none
+
+def Item.eventEnum? : Item → Option (List (Name × Bool × Name))
+  | .eventEnum _ _ arms => some arms
+  | _ => none
+
+def Item.dynImpl? : Item → Option (Name × Bool × List Arm × List DynAcc)
+  | .dynImpl _ _ _ _ _ iv isAsync arms accs => some (iv, isAsync, arms, accs)
+  | _ => none
+
+def Item.extractImpl? : Item → Option (List (Name × Name × Name))
+  | .extractImpl _ _ _ _ ms => some ms
+  | _ => none
+
+def Item.intoDyn? : Item → Option (Name × Name)
+  | .intoDynamicImpl _ _ _ _ s v => some (s, v)
+  | _ => none
+
 def Code.dynParts (c : Code) : Option DynParts :=
-  let any := c.findSome? fun
-    | .anyStateEnum _ _ _ vs arms => some (vs, arms)
-    | _ => none
-  let ev := c.findSome? fun
-    | .eventEnum _ _ arms => some arms
-    | _ => none
-  let di := c.findSome? fun
-    | .dynImpl _ _ _ _ _ iv isAsync arms accs => some (iv, isAsync, arms, accs)
-    | _ => none
-  let ex := c.findSome? fun
-    | .extractImpl _ _ _ _ ms => some ms
-    | _ => none
-  let idyn := c.filterMap fun
-    | .intoDynamicImpl _ _ _ _ s v => some (s, v)
-    | _ => none
-  match any, ev, di, ex with
+  match c.findSome? Item.anyStateEnum?, c.findSome? Item.eventEnum?, c.findSome? Item.dynImpl?,
+        c.findSome? Item.extractImpl? with
   | some (vs, sarms), some earms, some (iv, isAsync, arms, accs), some ms =>
     some { anyVariants := vs, stateNameArms := sarms, eventNameArms := earms, initialVariant := iv,
-           isAsync := isAsync, arms := arms, accs := accs, extract := ms, intoDyn := idyn }
+           isAsync := isAsync, arms := arms, accs := accs, extract := ms,
+           intoDyn := c.filterMap Item.intoDyn? }
   | _, _, _, _ => none
 
 /-- `AnyState::name()` -/
